@@ -103,12 +103,16 @@ def sig_objects(jws, sig):
     return [jws]
 
 
-def key_list(jwk):
-    if isinstance(jwk, list):
-        return jwk
-    if isinstance(jwk, dict) and isinstance(jwk.get("keys"), list):
-        return jwk["keys"]
-    return None
+def key_list(jwk, _top=True):
+    """the keys of an array / JWKSet; lists nested in lists are flattened (a nested list inherits any/all)"""
+    ks = jwk if isinstance(jwk, list) else jwk["keys"] if isinstance(jwk, dict) and isinstance(jwk.get("keys"), list) else None
+    if ks is None:
+        return None
+    out = []
+    for k in ks:
+        sub = key_list(k, False)
+        out.extend(sub if sub is not None else [k])
+    return out
 
 
 def pair_queries(jws, sig, jwk):
